@@ -35,6 +35,12 @@ instance : Monad Res where
   pure := ok
   bind := bind
 
+/-- `Option` to `Res`: `none` is the given error -/
+def ofOption {α} (o : Option α) (k : ErrKind) : Res α :=
+  match o with
+  | some a => ok a
+  | none => err k
+
 def isOk {α} : Res α → Bool | ok _ => true | _ => false
 def isPanic {α} : Res α → Bool | panic _ => true | _ => false
 
